@@ -1489,10 +1489,51 @@ def poolloop(F, R):
                             if 'B' not in tk and 'P' not in tk: ok = False; why = 'after a dispatch the scan must restart from the beginning of the pool (found %s)' % tk
                             # the scan stops at the caller's event limit: the dispatch just made still ends a sequence - events that an
                             # action deferred during it must become eligible for the next call, exactly as when the scan goes on
+                            if 'B' not in tk and 'P' in tk:
+                                # C10.pool-limit: the scan stops at the caller's limit only when no completion occurrence of the step just
+                                # taken is pending (they sit at the front of the pool): otherwise the next process_event() is dispatched
+                                # before the completion transition, which then runs from a state that is no longer active (D35)
+                                cp = next((v for k, v in sg['facts'] if 'completion_pending' in k), None)
+                                R.anchor('pool-limit-stop')
+                                R.ob('C10.pool-limit', cp is False, {'func': f.q, 'tokens': tk, 'completion_pending_on_stop_path': cp})
+                                if cp is not False:
+                                    R.find('C10.pool-limit', f, 'limit-stop', 'process_event_pool(max_events) leaves the loop at the event limit %s: a completion transition of the state just entered stays in the pool, a later process_event() is dispatched before it and the completion then runs from a state that is not active' % ('without asking whether a completion occurrence is pending' if cp is None else 'on the path where a completion occurrence IS pending'))
                             if 'B' not in tk and 'P' in tk and (with_def is None or ('S' in tk) != (with_def is False)):
                                 ok = False; why = 'the scan stops at the event limit after a dispatch without advancing the sequence counter (found %s, deferred-bit test on this path: %s): events deferred by an action stay ineligible for every later process_event_pool call until another event is submitted' % (tk, with_def)
             R.ob('C04.pool-loop', ok, {'func': f.q, 'paths': npaths})
             if not ok: R.find('C04.pool-loop', f, 'loop-shape', why)
+        if f.n == 'completion_pending' and f.cls == 'state_machine_base':
+            # answers for the first occurrence that is not marked as processed, with its completion mark; false for an empty pool
+            R.seen(f); R.anchor('pool-limit-helper')
+            okh = True; whyh = ''
+            for p in f.paths(max_paths=200, edge_bound=1):
+                facts_ = []; ret = None
+                for bi, b in enumerate(p):
+                    blk = f.bmap[b]
+                    for i in blk['e']:
+                        n = f.nodes[i]
+                        if n and n['k'] == 'ret' and n.get('e'):
+                            e = f.nodes[n['e']]
+                            while e and e['k'] in ('icast', 'cast', 'paren'): e = f.nodes[e['e']]
+                            ret = 'C' if e and e['k'] == 'call' and e.get('n') == 'is_completion' else f.eval_const(n['e'])
+                    if bi + 1 < len(p):
+                        for c, t in cond_facts(f, blk, p[bi + 1]):
+                            if c['k'] == 'call' and c.get('n') == 'marked_for_deletion': facts_.append(t)
+                if ret == 'C':
+                    if not facts_ or facts_[-1] is not False: okh = False; whyh = 'the completion mark is read from an occurrence that is already processed'
+                elif ret == 0:
+                    if any(t is False for t in facts_): okh = False; whyh = 'answers "none pending" although an unprocessed occurrence was found'
+                else: okh = False; whyh = 'returns %s' % ret
+            R.ob('C10.pool-limit', okh, {'func': f.q})
+            if not okh: R.find('C10.pool-limit', f, 'helper', 'completion_pending must answer with the completion mark of the first unprocessed occurrence (false for none): ' + whyh)
+        if f.cls == 'completion_event_occurrence' and f.d.get('sp') is None and f.n == 'completion_event_occurrence':
+            # the constructor marks the occurrence as a completion (second argument of the base initialiser evaluates to true)
+            for i, n in enumerate(f.nodes):
+                if n and n['k'] == 'ctor' and n.get('n') == 'event_occurrence':
+                    R.anchor('pool-limit-mark')
+                    okm = len(n.get('args', [])) >= 2 and f.eval_const(n['args'][1]) == 1
+                    R.ob('C10.pool-limit', okm, {'func': f.q})
+                    if not okm: R.find('C10.pool-limit', f, 'mark', 'a completion occurrence is constructed without its completion mark: process_event_pool(max_events) will stop in front of it')
         if f.n == 'try_process_impl' and f.cls in ('deferred_event', 'completion_event_occurrence'):
             R.seen(f); R.anchor('occurrence:' + f.cls)
             ok = True; why = ''
